@@ -236,13 +236,29 @@ def split_file(path, k):
     return out, lines
 
 
+def known_devs(status="known"):
+    return sorted({k["deviation"] for k in load_known() if k["status"] == status})
+
+
+def tv_cfg(work):
+    """A judge configuration whose constant KnownDevs lists the deviation switches of the findings recorded as
+    'known' (never the fixed ones: a fixed defect that returns is a violation)."""
+    p = work.path("TV.cfg")
+    with open(p, "w") as f:
+        f.write("CONSTANT KnownDevs = {%s}\nSPECIFICATION Spec\nCHECK_DEADLOCK FALSE\n"
+                % ", ".join('"%s"' % d for d in known_devs()))
+    return p
+
+
 def judge(tv_module, cfg, obs, work, chunks=None, timeout=900, env=None, workers=None):
     """Let TLC evaluate the specification on the observation file.  Returns (stats, rejects) where rejects is a
     list of dicts {index (0-based in obs), rec (the observation), exp, expl}."""
     n = count_lines(obs)
     if n == 0:
         return {"n": 0, "nontrivial": 0}, []
-    k = chunks or max(1, min(NCPU - 2, n // 200 + 1))
+    if cfg is None:
+        cfg = tv_cfg(work)
+    k = chunks or max(1, min(3 * (NCPU - 2), n // 200 + 1))
     parts, lines = split_file(obs, k)
     outp = obs + ".verdict"
     e = {"OBS": obs, "OUT": outp, "CHUNKS": str(len(parts))}
@@ -280,6 +296,19 @@ def judge(tv_module, cfg, obs, work, chunks=None, timeout=900, env=None, workers
 def load_known():
     with open(os.path.join(VERIF, "known_findings.json")) as f:
         return json.load(f)["findings"]
+
+
+def witness_cases(prop, work, name="witness.cases"):
+    """One text case per finding (known or fixed) recorded for this property: known ones must show up as
+    KNOWN-FINDING in every run, fixed ones are re-checked in every run and must now be accepted."""
+    path = work.path(name)
+    n = 0
+    with open(path, "w") as f:
+        for k in load_known():
+            if prop in k["properties"] and "expr" in k.get("witness", {}):
+                f.write(json.dumps({"e": "lang", "text": cps(k["witness"]["expr"]), "witness_of": k["id"]}) + "\n")
+                n += 1
+    return path, n
 
 
 # --------------------------------------------------------------------------- evidence + verdict
